@@ -34,7 +34,16 @@ def send_sig(v, bid, variant, path):
     for i, e in ev_effects(path):
         if e.kind == "send":
             c = v.cls_of(e)
-            out.append((c[0], e.variant, payload_kind(v, bid, variant, e.payload), e, i, c))
+            sv, pl = e.variant, e.payload
+            if sv == "UNKNOWN" and e.get("msg") is not None:
+                # the message was built in a multi-assigned local (e.g. re-built from a borrow in a merged arm): take this path's value
+                sv, pl = send_fields(resolve_phis(path, i, e.msg))
+            pk = payload_kind(v, bid, variant, pl)
+            if sv == "INCOMING" and variant is not None and v.family != "share" and pl == ("param", bid, 2):
+                # the incoming message forwarded as it is (merged relay arms): in this arm it is this arm's variant
+                sv = variant
+                pk = "in" if variant in ("Handshake", "Data", "Error") else "none"
+            out.append((c[0], sv, pk, e, i, c))
     return out
 
 
@@ -92,8 +101,7 @@ def over_flags(v):
                 sig = send_sig(v, b, var, p)
                 terminal = any(s[1] in ("Error", "Terminate") or (s[1] == "INCOMING" and var in ("Error", "Terminate")) for s in sig)
                 for i, e in ev_effects(p):
-                    if e.kind == "atomic" and e.op == "store" and e.operand is not None and e.operand[0] == "const" and e.operand[3] == 1 \
-                       and v.P.bodies[b].locals and True:
+                    if raises_flag(e):
                         ck = cell_key(e.cell)
                         good = (role == "DOWN" and var in ("Error", "Terminate")) or terminal
                         cands[ck] = cands.get(ck, True) and good
@@ -102,7 +110,7 @@ def over_flags(v):
         if v.P.bodies[b].is_handler():
             continue
         for e in v.all_effects(b):
-            if e.kind == "atomic" and e.op == "store" and e.operand is not None and e.operand[0] == "const" and e.operand[3] == 1:
+            if raises_flag(e):
                 cands[cell_key(e.cell)] = False
     v._over_flags = {k for k, ok in cands.items() if ok}
     return v._over_flags
@@ -115,7 +123,7 @@ def dead_path(v, p):
     of = over_flags(v)
     seen = False
     for (_, a, _) in guards_before(p, len(p.events)):
-        if a[0] == "bool" and a[1][0] == "aload" and a[2] is True and cell_key(a[1][1]) in of:
+        if a[0] == "bool" and a[2] is True and flag_observation(a[1]) in of:
             seen = True
     if not seen:
         return False
@@ -557,13 +565,24 @@ def grd_once(v, path, idx):
 
 
 def site_arms(v, bid, site):
-    """Variants of the arms of handler bid in which the effect at `site` can execute."""
+    """Variants of the arms of handler bid in which the effect at `site` can execute. `site` may be an Effect: for a send whose
+    variant is only known per path (a message re-built in a multi-assigned local) only the arms in which it sends that variant count."""
+    want = None
+    if isinstance(site, Effect):
+        if site.get("pseudo"):
+            want = site.variant
+        site = site.site
     out = []
     b = v.P.bodies[bid]
     arms = VARIANTS if b.is_handler() else [None]
     for var in arms:
         for p in v.arm(bid, var):
-            if any(e.site == site for _, e in ev_effects(p)):
+            hit = False
+            if want is None:
+                hit = any(e.site == site for _, e in ev_effects(p))
+            else:
+                hit = any(s[3].site == site and s[1] == want for s in send_sig(v, bid, var, p))
+            if hit:
                 out.append(var)
                 break
     return out
@@ -575,10 +594,10 @@ def thunk_callers(v, target):
     for b in v.op.bodies:
         for e in v.all_effects(b):
             if e.kind == "thunk" and e.target == target:
-                for var in site_arms(v, b, e.site):
+                for var in site_arms(v, b, e):
                     out.append((b, var, e))
             if (e.kind in ("hocall", "alias", "other", "cell", "atomic", "spawn") and target in (e.get("closures") or [])) or e.get("closure") == target or e.get("task") == target:
-                for var in site_arms(v, b, e.site):
+                for var in site_arms(v, b, e):
                     out.append((b, var, e))
     return out
 
@@ -614,7 +633,7 @@ def C01(ctx, model, tier, models):
         # ---- PL-greet: where the greeting sites are
         for e, b in greets:
             role = v.op.roles.get(b)
-            arms = site_arms(v, b, e.site)
+            arms = site_arms(v, b, e)
             if role in ("UP",):
                 ok = arms == ["Handshake"]
                 why = "greeting in %s arm(s) %s" % (v.label(b), arms)
@@ -735,7 +754,7 @@ def C01(ctx, model, tier, models):
         # ---- PL-nonH
         for e, b in nonh_sink_sends(v):
             role = v.op.roles.get(b)
-            arms = site_arms(v, b, e.site)
+            arms = site_arms(v, b, e)
             ok, why = False, ""
             if role in ("UP", "UP_INNER"):
                 ok = "Handshake" not in arms
@@ -868,9 +887,9 @@ def terminal_sink_sends(v):
         if c[0] not in ("SINK", "SINKLIST"):
             continue
         if e.variant in ("Error", "Terminate"):
-            out.append((e, b, site_arms(v, b, e.site)))
+            out.append((e, b, site_arms(v, b, e)))
         elif e.variant == "INCOMING":
-            arms = [a for a in site_arms(v, b, e.site) if a in ("Error", "Terminate")]
+            arms = [a for a in site_arms(v, b, e) if a in ("Error", "Terminate")]
             if arms:
                 out.append((e, b, arms))
     return out
@@ -880,8 +899,8 @@ def flag_guard(path, idx, want):
     """GRD-flag: decisions `atomic bool load == want` taken before idx: returns list of cell keys."""
     out = []
     for (i, a, ev) in guards_before(path, idx):
-        if a[0] == "bool" and a[1][0] == "aload" and a[2] == want:
-            out.append(cell_key(a[1][1]))
+        if a[0] == "bool" and a[2] == want and flag_observation(a[1]) is not None:
+            out.append(flag_observation(a[1]))
     return out
 
 
@@ -1036,7 +1055,7 @@ def _ord_flag_first(ctx, v, bid, variant, what):
     probs = []
     for p in complete(v.arm(bid, variant)):
         i, e = first_visible(v, p)
-        if e is None or not (e.kind == "atomic" and e.op == "store" and e.operand is not None and e.operand[0] == "const" and e.operand[3] == 1):
+        if e is None or not raises_flag(e):
             probs.append("first effect is %s" % (e.kind if e else "nothing"))
     ctx.ob("ORD-flag-relay", v.key(bid, variant, "ORD-flag-relay", what), not probs,
            "the over/end flag is set before anything is sent" if not probs else "; ".join(sorted(set(probs))[:2]), v.loc(bid))
@@ -1073,7 +1092,7 @@ def _take_completion(ctx, v, b, e):
             if not fl:
                 probs.append("completion does not test the end flag")
             # (3) end := true before both sends, upstream Terminate before the sink's
-            st = [i for i, x in ev_effects(p) if x.kind == "atomic" and x.op == "store" and fl and cell_key(x.cell) in fl and x.operand[3] == 1]
+            st = [i for i, x in ev_effects(p) if raises_flag(x) and fl and cell_key(x.cell) in fl]
             ups = [x for x in send_sig(v, b, "Data", p) if x[0] == "UPTB" and x[1] == "Terminate"]
             if not st or not ups or not (st[0] < ups[0][4] < idx):
                 probs.append("order is not: end.store(true); upstream Terminate; sink Terminate")
@@ -1110,13 +1129,38 @@ def _concat_completion(ctx, v, b, e):
            "completion guarded by index == n; thunk called only from the member's Terminate arm and once from ROOT" if not probs else "; ".join(sorted(set(probs))[:3]), e.loc)
 
 
+def _exhaustion_flags(p, idx):
+    """Flags known to be raised when event idx of the path is reached because the iterator is exhausted: a flag tested true, or
+    a flag stored with `x.is_none()` / true where this path decided that this very x (an iterator advance) is None."""
+    out = set(flag_guard(p, idx, True))
+    nones = []
+    for (_, a, _) in guards_before(p, idx):
+        if (a[0] == "discr" and a[2] == 0) or (a[0] == "opt" and a[2] == "none"):
+            if any(x[0] == "call" and x[2] == "std::iter::Iterator::next" for x in walk(a[1])):
+                nones.append(strip_refs(a[1]))
+    if nones:
+        for i, e in ev_effects(p):
+            if i >= idx or e.kind != "atomic" or e.op != "store" or e.operand is None:
+                continue
+            o = e.operand
+            if o[0] == "call" and o[2].endswith("::is_none") and o[3] and strip_refs(o[3][0]) in nones:
+                out.add(cell_key(e.cell))
+    return out
+
+
+def strip_refs(e):
+    while e is not None and e[0] in ("ref", "deref", "someof") and len(e) > 1 and isinstance(e[1], tuple):
+        e = e[1]
+    return e
+
+
 def _from_iter_completion(ctx, v, b, e):
     probs = []
     for p in v.arm(b, None):
         for s in send_sig(v, b, None, p):
             if s[3].site != e.site:
                 continue
-            if not flag_guard(p, s[4], True):
+            if not _exhaustion_flags(p, s[4]):
                 probs.append("Terminate not guarded by the exhaustion flag")
             later = [x for x in send_sig(v, b, None, p) if x[4] > s[4]]
             if later:
@@ -1129,7 +1173,7 @@ def _from_iter_completion(ctx, v, b, e):
     for p in v.arm(b, None):
         for s in send_sig(v, b, None, p):
             if s[3].site == e.site:
-                fl_cells |= set(flag_guard(p, s[4], True))
+                fl_cells |= _exhaustion_flags(p, s[4])
     for (cb, cv, ce) in thunk_callers(v, b):
         for p in v.arm(cb, cv, inline=0):
             for i, x in ev_effects(p):
@@ -1358,7 +1402,7 @@ def _flag_only_arm(ctx, v, d, var):
         sends = [e for i, e in ev_effects(p) if e.kind == "send"]
         if sends:
             probs.append("arm sends")
-        st = [e for i, e in ev_effects(p) if e.kind == "atomic" and e.op == "store" and e.operand[3] == 1]
+        st = [e for i, e in ev_effects(p) if raises_flag(e)]
         already = flag_guard(p, len(p.events), True)
         if not st and not already:
             probs.append("a path neither sets the disposal flag nor found it set")
@@ -1414,7 +1458,7 @@ def _merge_subscribe_loop(ctx, v):
                 last_iter = i
             if ev[0] == "eff" and ev[1].kind == "send" and ev[1].variant == "Handshake":
                 n += 1
-                fl = [j for j, a, _ in guards_before(p, i) if j > last_iter and a[0] == "bool" and a[1][0] == "aload" and a[2] is False]
+                fl = [j for j, a, _ in guards_before(p, i) if j > last_iter and a[0] == "bool" and flag_observation(a[1]) is not None and a[2] is False]
                 if not fl:
                     probs.append("subscribe without testing the over-flag in the same iteration")
     ctx.ob("GRD-flag", v.key(r, "Handshake", "GRD-flag", "subscribe-only-while-live"), not probs and n,
@@ -1428,13 +1472,13 @@ def _merge_late_greeter(ctx, v):
         kinds = set()
         for p in returning(v.arm(h, "Handshake")):
             effs = ev_effects(p)
-            over = [a for (_, a, _) in guards_before(p, len(p.events)) if a[0] == "bool" and a[1][0] == "aload"]
+            over = [a for (_, a, _) in guards_before(p, len(p.events)) if a[0] == "bool" and flag_observation(a[1]) is not None]
             if not over:
                 probs.append("a path of the member's Handshake arm does not test the over-flag")
                 continue
             first_test = None
             for i, a, ev in guards_before(p, len(p.events)):
-                if a[0] == "bool" and a[1][0] == "aload":
+                if a[0] == "bool" and flag_observation(a[1]) is not None:
                     first_test = i
                     break
             before = [e for i, e in effs if i < first_test and effect_visible(v.P, e) and not (e.kind == "atomic" and e.op == "load") and not e.tracing]
@@ -1484,13 +1528,13 @@ def _from_iter_disposal(ctx, v):
         for var in ("Error", "Terminate"):
             for p in v.arm(d, var):
                 for i, e in ev_effects(p):
-                    if e.kind == "atomic" and e.op == "store" and e.operand[3] == 1:
+                    if raises_flag(e):
                         flag_cells.add(cell_key(e.cell))
         for p in v.arm(t, None):
             last_send = -1
             for i, ev in enumerate(p.events):
                 if ev[0] == "eff" and ev[1].kind == "send":
-                    fl = [j for j, a, _ in guards_before(p, i) if j > last_send and a[0] == "bool" and a[1][0] == "aload" and cell_key(a[1][1]) in flag_cells and a[2] is False]
+                    fl = [j for j, a, _ in guards_before(p, i) if j > last_send and a[0] == "bool" and flag_observation(a[1]) is not None and flag_observation(a[1]) in flag_cells and a[2] is False]
                     if not fl:
                         probs.append("a send of the loop is not preceded by a fresh test of the disposal flag")
                     last_send = i
@@ -1507,7 +1551,7 @@ def _interval_cycle(ctx, v):
     for var in ("Error", "Terminate"):
         for p in v.arm(d, var):
             for i, e in ev_effects(p):
-                if e.kind == "atomic" and e.op == "store" and e.operand[3] == 1:
+                if raises_flag(e):
                     flag_cells.add(cell_key(e.cell))
     for t in tasks:
         probs = []
@@ -1523,8 +1567,8 @@ def _interval_cycle(ctx, v):
                         probs.append("%d sleeps between consecutive sends" % len(sleeps))
                     # flag test after the last yield / poll of the segment
                     idx_last_wait = max([j for j, x in enumerate(seg) if x[0] == "yield" or (x[0] == "eff" and x[1].kind == "poll")] + [-1])
-                    tests = [j for j, x in enumerate(seg) if x[0] == "br" and norm_pred(x[1], x[2])[0] == "bool" and norm_pred(x[1], x[2])[1][0] == "aload"
-                             and cell_key(norm_pred(x[1], x[2])[1][1]) in flag_cells and norm_pred(x[1], x[2])[2] is False]
+                    tests = [j for j, x in enumerate(seg) if x[0] == "br" and norm_pred(x[1], x[2])[0] == "bool" and flag_observation(norm_pred(x[1], x[2])[1]) is not None
+                             and flag_observation(norm_pred(x[1], x[2])[1]) in flag_cells and norm_pred(x[1], x[2])[2] is False]
                     if not tests or tests[-1] < idx_last_wait:
                         probs.append("disposal flag not tested between the completed sleep and the send")
                     if sleeps:
@@ -1535,7 +1579,7 @@ def _interval_cycle(ctx, v):
         # after a positive flag test the task ends without sending
         for p in v.arm(t, None):
             for i, a, ev in guards_before(p, len(p.events)):
-                if a[0] == "bool" and a[1][0] == "aload" and cell_key(a[1][1]) in flag_cells and a[2] is True:
+                if a[0] == "bool" and flag_observation(a[1]) is not None and flag_observation(a[1]) in flag_cells and a[2] is True:
                     later = [x for x in p.events[i:] if x[0] == "eff" and x[1].kind in ("send", "sleep")]
                     if later:
                         probs.append("task keeps going after seeing the disposal flag")
@@ -1637,7 +1681,7 @@ def C04(ctx, model, tier, models):
         subs = subscribe_sends(v)
         for e, b in subs:
             role = v.op.roles.get(b)
-            arms = site_arms(v, b, e.site)
+            arms = site_arms(v, b, e)
             in_loop = False
             for var in (VARIANTS if P.bodies[b].is_handler() else [None]):
                 for p in v.arm(b, var, inline=0):
@@ -1683,7 +1727,7 @@ def C04(ctx, model, tier, models):
         # ---- (f) upstream terminal site census, live broadcast, for_each
         for e, b in upstream_terminal_sends(v):
             role = v.op.roles.get(b)
-            arms = site_arms(v, b, e.site)
+            arms = site_arms(v, b, e)
             ok = False
             if role == "DOWN" and set(arms) <= {"Error", "Terminate"}:
                 ok = True
@@ -1739,12 +1783,12 @@ def _merge_pull_live(ctx, v):
                     last_iter = i
                 if ev[0] == "eff" and ev[1].kind == "send":
                     n += 1
-                    fl = [j for j, a, _ in guards_before(p, i) if j > last_iter and a[0] == "bool" and a[1][0] == "aload" and a[2] is False]
+                    fl = [j for j, a, _ in guards_before(p, i) if j > last_iter and a[0] == "bool" and flag_observation(a[1]) is not None and a[2] is False]
                     if not fl:
                         probs.append("a member is pulled without re-reading the over-flag")
             # once the flag is seen set, no further pull on that path
             for i, a, ev in guards_before(p, len(p.events)):
-                if a[0] == "bool" and a[1][0] == "aload" and a[2] is True:
+                if a[0] == "bool" and flag_observation(a[1]) is not None and a[2] is True:
                     if [x for x in p.events[i:] if x[0] == "eff" and x[1].kind == "send"]:
                         probs.append("broadcast continues after the over-flag was seen")
         ctx.ob("REL-bcast-live", v.key(d, "Pull", "REL-bcast-live"), not probs and n,
@@ -2054,7 +2098,7 @@ def transfer_lemmas(ctx, v):
                     probs.append("skip counter updated twice")
                 if counted:
                     kinds.add("skip")
-                    if sig != [("UPTB", "Pull", "none")]:
+                    if sig != [("UPTB", "Pull", "none")] and not (not sig and tb_none_decided(v, p)):
                         probs.append("below the bound: sends %s" % sig)
                 else:
                     kinds.add("pass")
@@ -2069,7 +2113,7 @@ def transfer_lemmas(ctx, v):
             rm = [e for i, e in ev_effects(p) if e.kind == "atomic" and e.op != "load" and cell_key(e.cell) == ck]
             if a[3] == "<" and a[4] == 0:
                 kinds.add("skip")
-                if sig != [("UPTB", "Pull", "none")] or len(rm) != 1 or not (rm[0].op == "fetch_add" and rm[0].operand[3] == 1):
+                if (sig != [("UPTB", "Pull", "none")] and not (not sig and tb_none_decided(v, p))) or len(rm) != 1 or not (rm[0].op == "fetch_add" and rm[0].operand[3] == 1):
                     probs.append("below the bound: sends %s, counter updates %d" % (sig, len(rm)))
             elif a[3] == ">=" and a[4] == 0:
                 kinds.add("pass")
@@ -2092,7 +2136,7 @@ def transfer_lemmas(ctx, v):
     ctx.ob("PL-nonH", "%s:PL-nonH:no-other-terminal-site" % v.name, not extra, "no terminal-to-sink site besides the relays%s" % (" and take's completion" if fam == "take" else ""), v.loc(h))
     # synchronous: all data sends sit in the UP.D arm itself
     ds = [(e, b) for e, b in v.sends() if e.variant == "Data" and v.cls_of(e)[0] == "SINK"]
-    sync = all(v.op.roles.get(b) == "UP" and site_arms(v, b, e.site) == ["Data"] for e, b in ds) and ds
+    sync = all(v.op.roles.get(b) == "UP" and site_arms(v, b, e) == ["Data"] for e, b in ds) and ds
     ctx.ob("PL-nonH", "%s:PL-nonH:data-inside-delivery" % v.name, bool(sync), "every datum is sent from inside the Data arm that received its cause (same arm for push and pull)", v.loc(h))
     if fam != "take":
         lemma_rel_one(ctx, v, d, "Pull", "UPTB", "Pull", "none", what="pull-relayed")
@@ -2135,7 +2179,7 @@ def from_iter_lemmas(ctx, v):
     # --- which cells play which part (by structure)
     # pull flag: the bool stored `true` in DOWN.P before the loop call; loop flag: stored true first / false last in the thunk
     def bool_stores(path, val):
-        return [(i, e) for i, e in ev_effects(path) if e.kind == "atomic" and e.op == "store" and e.operand[0] == "const" and e.operand[3] == val]
+        return [(i, e) for i, e in ev_effects(path) if (raises_flag(e) if val else lowers_flag(e))]
     probs = []
     # ORD-bracket: first visible effect of every thunk path is in_loop.store(true); last is in_loop.store(false)
     bracket = None
@@ -2145,7 +2189,7 @@ def from_iter_lemmas(ctx, v):
             probs.append("empty loop path")
             continue
         f, l = vis[0][1], vis[-1][1]
-        if not (f.kind == "atomic" and f.op == "store" and f.operand[3] == 1):
+        if not raises_flag(f):
             probs.append("thunk does not start by raising the in-loop flag")
             continue
         bracket = cell_key(f.cell)
@@ -2174,11 +2218,11 @@ def from_iter_lemmas(ctx, v):
                     probs.append("loop entered without testing the in-loop flag")
         # every returning Pull path records the pull (unless disposed)
         if p.end == "return":
-            disposed = any(a[0] == "bool" and a[2] is True and a[1][0] == "aload" for (_, a, _) in guards_before(p, len(p.events))[:1])
+            disposed = any(a[0] == "bool" and a[2] is True and flag_observation(a[1]) is not None for (_, a, _) in guards_before(p, len(p.events))[:1])
             if not disposed and not bool_stores(p, 1):
                 probs.append("a Pull path does not record the pull")
             # the store precedes the in_loop test
-            tests = [j for j, a, _ in guards_before(p, len(p.events)) if a[0] == "bool" and a[1][0] == "aload" and cell_key(a[1][1]) == bracket]
+            tests = [j for j, a, _ in guards_before(p, len(p.events)) if a[0] == "bool" and flag_observation(a[1]) is not None and flag_observation(a[1]) == bracket]
             st = bool_stores(p, 1)
             if tests and st and not st[0][0] < tests[0]:
                 probs.append("in-loop flag tested before the pull is recorded")
@@ -2190,8 +2234,8 @@ def from_iter_lemmas(ctx, v):
     for p in tp:
         evs = p.events
         # iteration boundaries: tests of the pull flag being true
-        starts = [i for i, ev in enumerate(evs) if ev[0] == "br" and norm_pred(ev[1], ev[2])[0] == "bool" and norm_pred(ev[1], ev[2])[1][0] == "aload"
-                  and cell_key(norm_pred(ev[1], ev[2])[1][1]) == pull_flag and norm_pred(ev[1], ev[2])[2] is True]
+        starts = [i for i, ev in enumerate(evs) if ev[0] == "br" and norm_pred(ev[1], ev[2])[0] == "bool" and flag_observation(norm_pred(ev[1], ev[2])[1]) is not None
+                  and flag_observation(norm_pred(ev[1], ev[2])[1]) == pull_flag and norm_pred(ev[1], ev[2])[2] is True]
         for si, s in enumerate(starts):
             e_end = starts[si + 1] if si + 1 < len(starts) else len(evs)
             seg = [(i, evs[i]) for i in range(s, e_end)]
@@ -2200,8 +2244,8 @@ def from_iter_lemmas(ctx, v):
             nexts = [(i, e) for i, e in effs if e.kind == "iternext"]
             if p.end == "cut" and si == len(starts) - 1 and not sends:
                 continue
-            completed_seen = any(x[0] == "br" and norm_pred(x[1], x[2])[0] == "bool" and norm_pred(x[1], x[2])[2] is True and norm_pred(x[1], x[2])[1][0] == "aload"
-                                 and cell_key(norm_pred(x[1], x[2])[1][1]) not in (pull_flag, bracket) and not sends and not nexts for i, x in seg)
+            completed_seen = any(x[0] == "br" and norm_pred(x[1], x[2])[0] == "bool" and norm_pred(x[1], x[2])[2] is True and flag_observation(norm_pred(x[1], x[2])[1]) is not None
+                                 and flag_observation(norm_pred(x[1], x[2])[1]) not in (pull_flag, bracket) and not sends and not nexts for i, x in seg)
             if completed_seen:
                 continue
             n_iter += 1
@@ -2222,7 +2266,12 @@ def from_iter_lemmas(ctx, v):
                 stores = [(i, e) for i, e in effs if e.kind == "pstore" and e.value[0] == "call" and e.value[2] == "std::iter::Iterator::next" and e.value[1] == nexts[0][1].site]
                 pl = snd.payload
                 via = [x for x in walk(pl) if x[0] == "lock"]
-                if not stores:
+                direct = pl
+                while direct is not None and (direct[0] == "someof" or (direct[0] == "field" and direct[2] == 0 and direct[1][0] == "downcast" and direct[1][2] == "Some")):
+                    direct = direct[1] if direct[0] == "someof" else direct[1][1]
+                if direct is not None and direct[0] == "call" and direct[2] == "std::iter::Iterator::next" and direct[1] == nexts[0][1].site:
+                    pass        # the datum is the Some-payload of this very advance, held in a local: nothing in between
+                elif not stores:
                     probs.append("the advanced value is not stored")
                 elif not via or not any(x[0] == "lock" and cell_key(x[1]) == cell_key([y for y in walk(stores[0][1].place) if y[0] == "lock"][0][1]) for x in via):
                     probs.append("the datum sent is not the value this advance produced")
@@ -2310,6 +2359,8 @@ def demand_lemmas(ctx, v):
             if len(toks) != 1:
                 if fam == "take" and not toks:
                     continue   # not admitted: the output is already over (C07 admission lemma)
+                if not sig and tb_none_decided(v, p):
+                    continue   # the talkback cell was seen empty: no upstream to compensate (dead while Data is arriving, ORD-store-pub)
                 probs.append("path emits %s" % [(s[0], s[1]) for s in toks])
             if fam in ("map", "scan", "take") and any(s[0] == "UPTB" and s[1] == "Pull" for s in sig):
                 probs.append("unrequested pull")
@@ -2323,7 +2374,7 @@ def demand_lemmas(ctx, v):
         gp = None
         for p in returning(v.arm(d, "Pull")):
             effs = ev_effects(p)
-            st = [(i, e) for i, e in effs if e.kind == "atomic" and e.op == "store" and e.operand[3] == 1]
+            st = [(i, e) for i, e in effs if raises_flag(e)]
             sig = send_sig(v, d, "Pull", p)
             if [(s[0], s[1]) for s in sig] != [("UPTB", "Pull")] and not (not sig and tb_none_decided(v, p)):
                 probs.append("DOWN.P sends %s" % [(s[0], s[1]) for s in sig])
@@ -2340,7 +2391,7 @@ def demand_lemmas(ctx, v):
             first = any(a[0] == "cmp" and a[3] == "==" and a[4] == 0 and a[2] is None and counter_term(a[1]) for (_, a, _) in guards_before(p, len(p.events)))
             if first:
                 continue
-            fl = [a for (_, a, _) in guards_before(p, len(p.events)) if a[0] == "bool" and a[1][0] == "aload" and cell_key(a[1][1]) == gp]
+            fl = [a for (_, a, _) in guards_before(p, len(p.events)) if a[0] == "bool" and flag_observation(a[1]) is not None and flag_observation(a[1]) == gp]
             if len(fl) != 1:
                 probs.append("boundary does not consult the recorded pull")
                 continue
@@ -2436,7 +2487,7 @@ def demand_lemmas(ctx, v):
     # PL-pull census
     for e, b in pull_sends(v):
         role = v.op.roles.get(b)
-        arms = site_arms(v, b, e.site)
+        arms = site_arms(v, b, e)
         ok = False
         if role == "DOWN" and arms == ["Pull"]:
             ok = True
@@ -2474,7 +2525,7 @@ def C14(ctx, model, tier, models):
         if v.family in ("merge", "combine", "share", "interval"):
             # not in the property's list, but their Pull sites are part of the census (no unrequested demand anywhere)
             for e, b in pull_sends(v):
-                ok = v.op.roles.get(b) == "DOWN" and site_arms(v, b, e.site) == ["Pull"]
+                ok = v.op.roles.get(b) == "DOWN" and site_arms(v, b, e) == ["Pull"]
                 ctx.ob("PL-pull", v.key(b, None, "PL-pull", "site"), ok, "Pull site in %s" % v.label(b), e.loc)
     ctx.floor("PL-pull", 18)
     ctx.floor("REL-token", 6)
@@ -2511,7 +2562,7 @@ def merge_lemmas(ctx, v):
             vis = [e for i, e in ev_effects(p) if effect_visible(v.P, e) and not e.tracing and e.kind != "send"
                    and not (e.kind == "atomic" and e.op == "load" and cell_key(e.cell) in over_flags(v))]
             brs = [a for (_, a, _) in guards_before(p, len(p.events))
-                   if not (a[0] == "bool" and a[1][0] == "aload" and cell_key(a[1][1]) in over_flags(v))]
+                   if not (a[0] == "bool" and flag_observation(a[1]) is not None and flag_observation(a[1]) in over_flags(v))]
             if [(s[0], s[1], s[2]) for s in sig] != [("SINK", "Data", "in")] or vis or brs:
                 probs.append("Data arm is not the unconditional, stateless relay (sends %s, %d other effects, %d branches)" % ([(s[0], s[1], s[2]) for s in sig], len(vis), len(brs)))
         ctx.ob("REL-1:1", v.key(h, "Data", "REL-1:1", "stateless-relay"), not probs, "every member datum is forwarded once, unconditionally, touching no shared cell" if not probs else probs[0], v.loc(h))
@@ -2520,7 +2571,7 @@ def merge_lemmas(ctx, v):
         sels = set()
         for k in tb:
             for (e, b) in cell_writes(v, k):
-                arms = site_arms(v, b, e.site)
+                arms = site_arms(v, b, e)
                 sel = cell_key(e.cell)[1]
                 sels.add(sel)
                 if e.kind != "cell" or e.op != "store":
@@ -2629,7 +2680,7 @@ def concat_lemmas(ctx, v):
         if sends:
             probs.append("member end sends something itself")
     ws = cell_writes(v, idx_cell[0]) if idx_cell else []
-    if not all(b == h and site_arms(v, b, e.site) == ["Terminate"] for e, b in ws):
+    if not all(b == h and site_arms(v, b, e) == ["Terminate"] for e, b in ws):
         probs.append("the member index is written outside the member's Terminate arm")
     ctx.ob("ORD-update-emit", v.key(h, "Terminate", "ORD-update-emit", "advance-then-next"), not probs and idx_cell is not None,
            "member k+1 is subscribed only from member k's Terminate, after the index moved on" if not probs else "; ".join(sorted(set(probs))), v.loc(h))
@@ -2830,7 +2881,7 @@ def combine_lemmas(ctx, v):
                "slot %s := Some(d) by rcu; first value decrements n_data after publishing; emit unwrap(latest tuple) iff n_data == 0" % idx if not probs else "; ".join(sorted(set(probs))[:4]), v.loc(h))
         # n_data: init N, only written by this pattern
         if ndata_k:
-            okc = cell_init(v, ndata_k[0]) == N and all(e.kind == "atomic" and e.op == "fetch_sub" and site_arms(v, b, e.site) == ["Data"] for e, b in cell_writes(v, ndata_k[0]))
+            okc = cell_init(v, ndata_k[0]) == N and all(e.kind == "atomic" and e.op == "fetch_sub" and site_arms(v, b, e) == ["Data"] for e, b in cell_writes(v, ndata_k[0]))
             ctx.ob("GRD-once", v.key(h, "Data", "GRD-once", "n_data-init-N"), okc, "n_data starts at N = %d and is only decremented in member Data arms" % N, v.loc(h))
         # completion
         for var in ("Error", "Terminate"):
@@ -3078,9 +3129,14 @@ def _share_detach_closures(ctx, v):
                         if not (len(eq) == 1 and any(a == incoming_payload(r, "Handshake") for a in eq[0].args) and any(a == ("param", c, 2) for a in eq[0].args)):
                             probs.append("position closure is not Arc::ptr_eq(element, this sink)")
                 if e.kind == "cell" and e.op == "rcu" and e.closure:
-                    sp = [x for x in v.all_effects(e.closure) if x.kind in ("other", "hocall") and x.callee.endswith("::splice")]
+                    sp = [x for x in v.all_effects(e.closure) if x.kind in ("other", "hocall") and
+                          (x.callee.endswith("::splice") or x.callee.endswith("::drain") or re.search(r"Vec::<[^>]*>::remove$", x.callee))]
                     if len(sp) != 1:
                         probs.append("removal closure does not splice exactly once")
+                    elif sp[0].callee.endswith("::remove"):
+                        # Vec::remove(i): one element at one position, order of the rest kept (swap_remove is not accepted)
+                        if strip_clone(sp[0].args[0]) != ("param", e.closure, 2):
+                            probs.append("removal closure does not remove exactly position i from a copy of the list")
                     else:
                         rng = sp[0].args[1]
                         okr = rng[0] == "agg" and rng[2].startswith("Range::") and lin(rng[3][1]) == (rng[3][0], 1) and strip_clone(sp[0].args[0]) == ("param", e.closure, 2)
@@ -3130,6 +3186,31 @@ def interval_lemmas(ctx, v):
         for s in send_sig(v, t, None, p):
             n += 1
             pl = s[3].payload
+            if s[0] == "SINK" and s[1] == "Data" and pl is not None and pl[0] == "ldsaved":
+                # a task-local counter (a slot of the task's own state): only this task can touch it.  On this path: the slot is
+                # set to the constant 0 once, before the first sleep; between two emissions it is stored exactly once, with a
+                # fresh read of itself plus one; and the value sent was read after the previous store and before this one.
+                local_slot = pl[1]
+                evs = p.events
+                st = [(i, ev[1]) for i, ev in enumerate(evs) if ev[0] == "eff" and ev[1].kind == "pstore" and ev[1].place == local_slot]
+                lds = {ev[1]: i for i, ev in enumerate(evs) if ev[0] == "ld" and ev[2] == local_slot and i < s[4]}      # last occurrence wins
+                first_wait = min([i for i, ev in enumerate(evs) if ev[0] == "yield" or (ev[0] == "eff" and ev[1].kind in ("sleep", "poll"))] + [len(evs)])
+                inits = [(i, e) for i, e in st if e.value[0] == "const"]
+                if not (len(inits) == 1 and inits[0][0] == st[0][0] and inits[0][1].value[3] == 0 and inits[0][0] < first_wait):
+                    probs.append("the task-local counter is not set to 0 exactly once, at task start")
+                prev = max([i for i, e in ev_effects(p) if e.kind == "send" and i < s[4]] + [-1])
+                inc = [(i, e) for i, e in st if prev < i < s[4] and e.value[0] != "const"]
+                if len(inc) != 1:
+                    probs.append("the counter is not advanced exactly once per emission")
+                    continue
+                base, off = lin(inc[0][1].value)
+                before = max([i for i, e in st if i < inc[0][0]] + [-1])
+                if not (off == 1 and base is not None and base[0] == "ldsaved" and base[1] == local_slot and before < lds.get(base[2], -1) < inc[0][0]):
+                    probs.append("the counter is not advanced by exactly one from its current value")
+                if not (before < lds.get(pl[2], -1) < inc[0][0]):
+                    probs.append("the value sent is not the counter's value before this emission's increment")
+                local_counter = True
+                continue
             if not (s[0] == "SINK" and s[1] == "Data" and pl is not None and pl[0] == "rmw" and pl[2] == "fetch_add" and pl[3][0] == "const" and pl[3][3] == 1):
                 probs.append("the task does not send Data(i.fetch_add(1))")
                 continue
@@ -3156,7 +3237,7 @@ def interval_lemmas(ctx, v):
     for var in ("Error", "Terminate"):
         for p in v.arm(d, var):
             for i, e in ev_effects(p):
-                if e.kind == "atomic" and e.op == "store":
+                if raises_flag(e):
                     fl.add(cell_key(e.cell))
     okf = len(fl) == 1
     if okf:
@@ -3354,7 +3435,7 @@ def discharge_panic(v, b, var, p, i, e, hint, tbcells):
             lk = [x for x in walk(subj) if x[0] == "lock"]
             if lk:
                 vck = cell_key(lk[0][1])
-                fl = [(j, a) for j, a, _ in guards_before(p, i) if a[0] == "bool" and a[1][0] == "aload" and a[2] is False]
+                fl = [(j, a) for j, a, _ in guards_before(p, i) if a[0] == "bool" and flag_observation(a[1]) is not None and a[2] is False]
                 for j, a in fl:
                     fck = cell_key(a[1][1])
                     sts = [(jj, x) for jj, x in ev_effects(p) if jj < j and x.kind == "atomic" and x.op == "store" and cell_key(x.cell) == fck]
@@ -4088,8 +4169,8 @@ def _merge_over_flag(ctx, v):
     flag = set()
     for p in v.arm(r, "Handshake"):
         for (_, a, _) in guards_before(p, len(p.events)):
-            if a[0] == "bool" and a[1][0] == "aload":
-                flag.add(cell_key(a[1][1]))
+            if a[0] == "bool" and flag_observation(a[1]) is not None:
+                flag.add(flag_observation(a[1]))
     probs = []
     if len(flag) != 1:
         probs.append("the subscribe loop consults %d flags" % len(flag))
@@ -4098,7 +4179,7 @@ def _merge_over_flag(ctx, v):
         places = [(d, var) for d in v.by_role("DOWN") for var in ("Error", "Terminate")] + [(h, "Error") for h in v.by_role("UP")]
         for (b, var) in places:
             for p in complete(v.arm(b, var)):
-                st = [i for i, e in ev_effects(p) if e.kind == "atomic" and e.op == "store" and cell_key(e.cell) == fk and e.operand[3] == 1]
+                st = [i for i, e in ev_effects(p) if raises_flag(e) and cell_key(e.cell) == fk]
                 sn = [i for i, e in ev_effects(p) if e.kind == "send"]
                 if not st or (sn and st[0] > sn[0]):
                     probs.append("%s.%s does not raise the over-flag before its first send" % (v.label(b), VSHORT[var]))
@@ -4138,7 +4219,7 @@ def _combine_nonh_guards(ctx, v):
                         elif len({(e.site) for e, b in cell_writes(v, g["cell"][0])}) != 0:
                             # every decrement site lies in a member's Error/Terminate arm (one end per member, A2)
                             for e, b in cell_writes(v, g["cell"][0]):
-                                if not (v.op.roles.get(b) == "UP" and set(site_arms(v, b, e.site)) <= {"Error", "Terminate"}):
+                                if not (v.op.roles.get(b) == "UP" and set(site_arms(v, b, e)) <= {"Error", "Terminate"}):
                                     probs.append("the end counter is written outside the members' end arms")
         ctx.ob("GRD-once", v.key(h, None, "GRD-once", "nothing-before-all-greeted"), not probs,
                "data needs every member's first value and completion every member's end: both imply every member greeted" if not probs else "; ".join(sorted(set(probs))[:3]), v.loc(h))
@@ -4155,7 +4236,7 @@ def _merge_nonh_guards(ctx, v):
                     probs.append("completion not behind post(end_count) == n")
                 else:
                     for e, b in cell_writes(v, g["cell"][0]):
-                        if not (v.op.roles.get(b) == "UP" and site_arms(v, b, e.site) == ["Terminate"]):
+                        if not (v.op.roles.get(b) == "UP" and site_arms(v, b, e) == ["Terminate"]):
                             probs.append("end_count is written outside the members' Terminate arms")
         ctx.ob("GRD-once", v.key(h, "Terminate", "GRD-once", "completion-implies-all-greeted"), not probs,
                "completion needs n member completions, each after that member's greeting (A1)" if not probs else "; ".join(sorted(set(probs))), v.loc(h))
@@ -4261,7 +4342,7 @@ def lemma_flatten_inner_indicator(ctx, v):
         for e in writes:
             state = not (e.value[0] == "agg" and e.value[2] == "Option::None")
         # a pending marker (a flag raised before subscribing) would also do
-        flagged = [e for i, e in ev_effects(p) if i < subs[0][4] and e.kind == "atomic" and e.op == "store" and e.operand[3] == 1]
+        flagged = [e for i, e in ev_effects(p) if i < subs[0][4] and raises_flag(e)]
         kind = "switch" if was_some else "first"
         seen[kind] += 1
         if not state and not flagged:
